@@ -389,7 +389,7 @@ fn case(rng: &mut Rng, rep: &mut Report) {
         let mut s = sm.initial_state().unwrap_or_default();
         let before: Vec<f64> = s.iter().map(|x| x.0).collect();
         if let Ok(Ok(())) = catch(|| model.estimate_traversal((&a, &b), &mut s, &sm)) {
-            let d_m = hav_m((a.x(), a.y()), (b.x(), b.y()));
+            let d_m = crate::gen::net::hav_m_f64((a.x() as f64, a.y() as f64), (b.x() as f64, b.y() as f64)); // the harness's own great circle
             let ideal = rec1.ideal_energy_rate.as_f64();
             let want = ideal * d_m / U::dist_si(rate_dist_unit(m1.eru)) * if vtype == 0 { 1.0 } else { el_factor };
             let idx = if vtype == 0 { i_liq } else { i_el };
